@@ -140,6 +140,63 @@ pub struct Violation {
     pub detail: J,
 }
 
+/// case currently executed by the worker's main thread (read by the progress watchdog)
+pub static CURRENT_CASE: std::sync::atomic::AtomicU64 = std::sync::atomic::AtomicU64::new(u64::MAX);
+pub static CURRENT_SUBSTEP: std::sync::atomic::AtomicU64 = std::sync::atomic::AtomicU64::new(0);
+
+/// Progress watchdog for every monitor: a single case takes milliseconds (the heaviest ones a few
+/// seconds); when the main thread has burnt `bound_s` seconds of *thread CPU time* inside one case,
+/// some call into the crate does not return. The watchdog writes a witness (`hang-<engine>-<shard>.json`)
+/// and ends the worker with exit code 17; the driver reports it and restarts the shard behind that case.
+/// CPU time, not wall-clock time: an overloaded machine cannot trip it.
+pub fn start_progress_watchdog(prop: &'static str, seed: u64, engine: Engine, shard: u64, out_dir: Option<String>, bound_s: f64) {
+    let task = match std::fs::read_link("/proc/thread-self") {
+        Ok(p) => p.to_string_lossy().into_owned(),
+        Err(_) => return,
+    };
+    std::thread::spawn(move || {
+        use std::sync::atomic::Ordering::SeqCst;
+        let cpu = |t: &str| -> Option<u64> { std::fs::read_to_string(format!("/proc/{}/schedstat", t)).ok()?.split_whitespace().next()?.parse().ok() };
+        let mut seen: Option<(u64, u64)> = None; // (case, cpu at first sight)
+        loop {
+            std::thread::sleep(std::time::Duration::from_millis(200));
+            let case = CURRENT_CASE.load(SeqCst);
+            if case == u64::MAX {
+                seen = None;
+                continue;
+            }
+            let now = match cpu(&task) {
+                Some(x) => x,
+                None => return,
+            };
+            match seen {
+                Some((c, _)) if c == case => {}
+                _ => seen = Some((case, now)),
+            }
+            let used = (now - seen.unwrap().1) as f64 / 1e9;
+            if used > bound_s {
+                let sub = CURRENT_SUBSTEP.load(SeqCst);
+                let j = J::obj()
+                    .set("prop", prop)
+                    .set("seed", seed)
+                    .set("index", case)
+                    .set("sub", sub)
+                    .set("reason", "case_cpu_time_bound")
+                    .set("thread_cpu_s", format!("{:.1}", used))
+                    .set("bound_s", format!("{:.0}", bound_s))
+                    .set("what", "one case kept the worker's main thread busy for longer than the bound: a call into the crate does not return");
+                match &out_dir {
+                    Some(d) => {
+                        let _ = std::fs::write(format!("{}/hang-{}-{}.json", d, engine.name(), shard), j.to_string());
+                    }
+                    None => println!("  violated clause=bounded_progress discr=case_cpu_time_bound detail={}", j.to_string()),
+                }
+                std::process::exit(17);
+            }
+        }
+    });
+}
+
 pub const MAX_SIGNATURES: usize = 60;
 pub const MAX_SHAPES: usize = 6_000_000;
 pub const MAX_SAMPLES: usize = 4;
@@ -234,6 +291,7 @@ impl Ctx {
     }
 
     pub fn begin_case(&mut self, index: u64) {
+        CURRENT_CASE.store(index, std::sync::atomic::Ordering::SeqCst);
         self.index = index;
         self.rng = Rng::for_case(self.seed, self.prop, index);
         self.cases += 1;
@@ -243,6 +301,7 @@ impl Ctx {
     /// record "about to call into the crate" (case index + sub-step) in the status slot,
     /// so that an abort (sanitizer, stack overflow) is attributable to a concrete case.
     pub fn mark(&mut self, substep: u32) {
+        CURRENT_SUBSTEP.store(substep as u64, std::sync::atomic::Ordering::Relaxed);
         if let Some(f) = &self.status {
             use std::os::unix::fs::FileExt;
             let s = format!(
@@ -258,6 +317,7 @@ impl Ctx {
     }
 
     pub fn mark_done(&mut self) {
+        CURRENT_CASE.store(u64::MAX, std::sync::atomic::Ordering::SeqCst);
         if let Some(f) = &self.status {
             use std::os::unix::fs::FileExt;
             let mut buf = [b' '; 96];
